@@ -130,7 +130,7 @@ func genWrap(t *rapid.T, L int) int {
 }
 
 func samOptsFor(conflict bool) samGenOpts {
-	o := samGenOpts{maxRef: 60, maxQueries: 5, maxRecs: 3, allowConflict: conflict, allowNoise: true, iupacRef: true, hugeEvery: 60, manyEvery: 700}
+	o := samGenOpts{maxRef: 60, maxQueries: 5, maxRecs: 3, allowConflict: conflict, allowNoise: true, iupacRef: true, hugeEvery: 150, manyEvery: 700}
 	if thorough() {
 		o.maxRef, o.maxQueries, o.maxRecs = 400, 6, 5
 	}
@@ -138,12 +138,12 @@ func samOptsFor(conflict bool) samGenOpts {
 }
 
 func genC01(t *rapid.T) c01Case {
-	if rapid.IntRange(0, 399).Draw(t, "veryLongRef") == 0 {
+	if rapid.IntRange(0, 1999).Draw(t, "veryLongRef") == 0 {
 		// rows longer than 64 KiB, wrapped at widths around and above 65536 (line buffers of writers end there)
 		n := rapid.SampledFrom([]int{66000, 70000, 131100}).Draw(t, "veryLongLen")
 		unit := genACGT(t, 997, "veryLongUnit")
 		ref := strings.Repeat(unit, n/997+1)[:n]
-		c := c01Case{In: genSamInput(t, samGenOpts{maxQueries: 2, maxRecs: 2, fixedRef: ref, fixedRefName: "longref"})}
+		c := c01Case{In: genSamInput(t, samGenOpts{maxQueries: 2, maxRecs: 1 + rapid.IntRange(0, 1).Draw(t, "veryLongRecs"), fixedRef: ref, fixedRefName: "longref"})}
 		c.Pad = rapid.Bool().Draw(t, "pad")
 		c.Start, c.End = -1, -1
 		if rapid.Bool().Draw(t, "window") {
